@@ -51,9 +51,9 @@ def extract_item(repo_rel, item_path, spec_lines, opts, unit, verus=True):
         it = rustscan.locate(src, item_path)
     except rustscan.AnchorError as e:
         raise vlib.Inconclusive("LOST-ANCHOR unit=%s item=%s (%s)" % (unit.id, item_path, e))
-    header = src[it.head_start:it.body_start].rstrip()
+    header = src[(it.start if opts.get("keep_attrs") else it.head_start):it.body_start].rstrip()
     body = src[it.body_start:it.end]
-    dropped = src[it.start:it.head_start].strip()
+    dropped = "" if opts.get("keep_attrs") else src[it.start:it.head_start].strip()
     # result binder (Verus only)
     m = re.search(r"->\s*(.+)$", header, re.S)
     if verus and m and not m.group(1).lstrip().startswith("("):
